@@ -137,7 +137,7 @@ fn static_encode_matches_rfc() {
 }
 
 // ---------- typed deflate state (bypasses init): w_bits 9, lit_bufsize LB
-const WB: usize = 4;
+const WB: usize = 9;
 const WS: usize = 1 << WB;
 const LB: usize = 16; // pending = 64 bytes, sym_buf = 48 bytes
 
@@ -234,14 +234,17 @@ fn typed_stored_oneshot() {
     core::mem::forget(state);
 }
 
+#[kani::stub(<[u16]>::fill, stub_fill)]
+#[kani::stub(<[u8]>::fill, stub_fill)]
 #[kani::proof]
 #[kani::unwind(8)]
 #[kani::stub(core::fmt::write, stub_fmt_write)]
 #[kani::stub(core::panicking::panic_nounwind, stub_pn)]
 #[kani::stub(core::panicking::panic_nounwind_fmt, stub_pnf)]
 fn typed_quick_oneshot() {
-    let mut mem = Mem { window: [0; 2 * WS], prev: [0; WS], head: [0; HASH_SIZE], pending: [MaybeUninit::new(0); 4 * LB], sym: [0; 3 * LB] };
-    let mut state = typed_state(&mut mem, 1, 0, Strategy::Default);
+    let mut w = [0u8; 2 * WS]; let mut p = [0u16; WS]; let mut h = [0u16; HASH_SIZE];
+    let mut pe = [MaybeUninit::new(0u8); 4 * LB]; let mut sy = [0u8; 3 * LB];
+    let mut state = typed_state2(&mut w, &mut p, &mut h, &mut pe, &mut sy, 1, 0, Strategy::Default);
     let mut stream = typed_stream(unsafe { &mut *(&mut state as *mut State) });
     let rc = reset_keep(&mut stream);
     assert!(rc == ReturnCode::Ok);
@@ -249,8 +252,7 @@ fn typed_quick_oneshot() {
     lm_set_level(stream.state, 1);
     const N: usize = 3;
     let input: [u8; N] = kani::any();
-    let n: u32 = kani::any();
-    kani::assume(n as usize <= N);
+    let n: u32 = 3;
     let mut out = [0u8; 24];
     stream.next_in = input.as_ptr() as *mut u8; stream.avail_in = n;
     stream.next_out = out.as_mut_ptr(); stream.avail_out = 24;
@@ -521,4 +523,75 @@ fn zlib_wrapper_machine() {
     }
     assert!(stream.total_out as usize == produced);
     core::mem::forget(stream); core::mem::forget(state);
+}
+
+// reference decoder for a single final fixed-Huffman block (RFC 1951 3.2.6), harness-side oracle
+struct Bits<'a> { d: &'a [u8], pos: usize }
+impl<'a> Bits<'a> {
+    fn bit(&mut self) -> u32 { let b = (self.d[self.pos >> 3] >> (self.pos & 7)) & 1; self.pos += 1; b as u32 }
+    fn bits(&mut self, n: u32) -> u32 { let mut v = 0; let mut i = 0; while i < n { v |= self.bit() << i; i += 1; } v }
+    fn code(&mut self, n: u32) -> u32 { let mut v = 0; let mut i = 0; while i < n { v = (v << 1) | self.bit(); i += 1; } v }
+}
+fn ref_inflate_fixed(src: &[u8], dst: &mut [u8]) -> Option<usize> {
+    const LBASE: [u16; 29] = [3,4,5,6,7,8,9,10,11,13,15,17,19,23,27,31,35,43,51,59,67,83,99,115,131,163,195,227,258];
+    const LEXT: [u8; 29] = [0,0,0,0,0,0,0,0,1,1,1,1,2,2,2,2,3,3,3,3,4,4,4,4,5,5,5,5,0];
+    const DBASE: [u16; 30] = [1,2,3,4,5,7,9,13,17,25,33,49,65,97,129,193,257,385,513,769,1025,1537,2049,3073,4097,6145,8193,12289,16385,24577];
+    const DEXT: [u8; 30] = [0,0,0,0,1,1,2,2,3,3,4,4,5,5,6,6,7,7,8,8,9,9,10,10,11,11,12,12,13,13];
+    let mut b = Bits { d: src, pos: 0 };
+    if b.bits(3) != 0b011 { return None; }
+    let mut n = 0usize;
+    let mut guard = 0;
+    while guard < 8 {
+        guard += 1;
+        let mut c = b.code(7);
+        let sym = if c <= 0x17 { 256 + c } else {
+            c = (c << 1) | b.bit();
+            if c >= 0x30 && c <= 0xbf { c - 0x30 } else if c >= 0xc0 && c <= 0xc7 { 280 + c - 0xc0 } else {
+                c = (c << 1) | b.bit();
+                144 + c - 0x190
+            }
+        };
+        if sym < 256 { if n >= dst.len() { return None; } dst[n] = sym as u8; n += 1; }
+        else if sym == 256 { return Some(n); }
+        else {
+            let li = (sym - 257) as usize; if li >= 29 { return None; }
+            let len = LBASE[li] as usize + b.bits(LEXT[li] as u32) as usize;
+            let dc = b.code(5) as usize; if dc >= 30 { return None; }
+            let dist = DBASE[dc] as usize + b.bits(DEXT[dc] as u32) as usize;
+            if dist > n || n + len > dst.len() { return None; }
+            let mut k = 0; while k < len { dst[n] = dst[n - dist]; n += 1; k += 1; }
+        }
+    }
+    None
+}
+
+#[kani::proof]
+#[kani::unwind(16)]
+#[kani::stub(core::fmt::write, stub_fmt_write)]
+#[kani::stub(core::panicking::panic_nounwind, stub_pn)]
+#[kani::stub(core::panicking::panic_nounwind_fmt, stub_pnf)]
+#[kani::stub(<[u16]>::fill, stub_fill)]
+#[kani::stub(<[u8]>::fill, stub_fill)]
+fn quick_roundtrip_n5() {
+    let mut w = [0u8; 2 * WS]; let mut p = [0u16; WS]; let mut h = [0u16; HASH_SIZE];
+    let mut pe = [MaybeUninit::new(0u8); 4 * LB]; let mut sy = [0u8; 3 * LB];
+    let mut state = typed_state2(&mut w, &mut p, &mut h, &mut pe, &mut sy, 1, 0, Strategy::Default);
+    let mut stream = typed_stream(unsafe { &mut *(&mut state as *mut State) });
+    assert!(reset_keep(&mut stream) == ReturnCode::Ok);
+    stream.state.window_size = 2 * WS;
+    lm_set_level(stream.state, 1);
+    const N: usize = 5;
+    let input: [u8; N] = kani::any();
+    let mut out = [0u8; 16];
+    stream.next_in = input.as_ptr() as *mut u8; stream.avail_in = N as u32;
+    stream.next_out = out.as_mut_ptr(); stream.avail_out = 14;
+    let rc = deflate(&mut stream, DeflateFlush::Finish);
+    assert!(rc == ReturnCode::StreamEnd);
+    let produced = (14 - stream.avail_out) as usize;
+    core::mem::forget(stream); core::mem::forget(state);
+    let mut back = [0u8; N];
+    let r = ref_inflate_fixed(&out, &mut back);
+    assert!(r == Some(N));
+    let mut i = 0; while i < N { assert!(back[i] == input[i]); i += 1; }
+    kani::cover!(produced <= 5); // a match was emitted
 }
